@@ -256,6 +256,26 @@ func checkC17(c c17Case) string {
 			}
 		}
 	}
+	// --- group A': the needle arrives through another builtin that hands it through unchanged
+	// (mid / left / right over the whole of t, a pad to t's own length, a one-element join)
+	arrW, msgW := c17Eval(c, `[find(s, mid(t,0,len(t))), contains(s, left(t,len(t))), startWith(s, right(t,len(t))), endWith(s, rpad(t,'x',len(t))), find(s, join([t], ',')), replace(s, lpad(t,'x',len(t)), r)]`)
+	if msgW != "" {
+		return msgW
+	}
+	if m := first(
+		wantInt(arrW, 0, idx, "find(s, mid(t,0,len(t)))"),
+		wantBool(arrW, 1, idx >= 0, "contains(s, left(t,len(t)))"),
+		wantBool(arrW, 2, naiveHasPrefix(s, t), "startWith(s, right(t,len(t)))"),
+		wantBool(arrW, 3, naiveHasSuffix(s, t), "endWith(s, rpad(t,'x',len(t)))"),
+		wantInt(arrW, 4, idx, "find(s, join([t], ','))"),
+	); m != "" {
+		return m
+	}
+	if t != "" {
+		if m := wantStr(arrW, 5, naiveReplaceAll(s, t, c.R), "replace(s, lpad(t,'x',len(t)), r)"); m != "" {
+			return m
+		}
+	}
 	// --- group B: left / right with in-range n
 	if c.N >= 0 && c.N <= len(s) {
 		arr, msg = c17Eval(c, `[left(s,n), right(s,n), left(s,n) + right(s,len(s)-n) == s, startWith(s,left(s,n)), endWith(s,right(s,n)), left(s,n) + right(s,len(s)-n)]`)
